@@ -1,7 +1,7 @@
 (* One entry point for the extracted model: [run cmd args] returns the result fields.
    The OCaml driver only splits lines, (un)escapes and converts strings. *)
 From Coq Require Import List Bool NArith ZArith String Ascii.
-From PC Require Import Base.Cmp Base.Result Model.Pep440 Spec.Pep440Spec Spec.Specifier Model.VConstraint Model.Generic Model.Marker Model.MarkerAlg Model.Wheel Model.Select Model.PyRange Model.Meta.
+From PC Require Import Base.Cmp Base.Result Model.Pep440 Spec.Pep440Spec Spec.Specifier Model.VConstraint Model.Generic Model.Marker Model.MarkerAlg Model.Wheel Model.Select Model.PyRange Model.Meta Model.VHyp.
 Import ListNotations.
 Open Scope string_scope.
 Open Scope N_scope.
@@ -191,6 +191,13 @@ Definition run_vc (cmd : string) (args : list string) : option (list string) :=
              | Some (Err e) => ["err"; err_str e]
              | None => ["badop"] end
            | _, _ => ["badoperand"] end
+    | _ => None end
+  else if seq cmd "chyp" then     (* the decidable hypotheses of the union-level theorems, on one operand *)
+    match args with
+    | [sa] =>
+      Some match cparse false sa with
+           | Ok a => [show_bool (h_goodc a); show_bool (h_sorted a)]
+           | _ => ["badoperand"] end
     | _ => None end
   else if seq cmd "cpred" then
     match args with
